@@ -1,5 +1,5 @@
 """Driver of the per-property checks (see /verif/DESIGN.md section 5)."""
-import argparse, fcntl, hashlib, json, os, re, shutil, subprocess, sys, time
+import argparse, fcntl, glob, hashlib, json, os, re, shutil, subprocess, sys, time
 from collections import Counter
 
 ROOT = os.path.dirname(os.path.dirname(os.path.abspath(__file__)))
@@ -178,6 +178,14 @@ def build_all(log):
         if rc:
             st['runner_ok'] = False
             st['notes'].append('OCaml runner build failed')
+    # a generated file that no longer compiles must not leave its old compiled form behind for the property files to use
+    for v in glob.glob(os.path.join(COQ, 'Generated', '*.v')):
+        if not vo_fresh(os.path.relpath(v, COQ)):
+            for ext in ('.vo', '.vos', '.vok', '.glob'):
+                try:
+                    os.remove(v[:-2] + ext)
+                except OSError:
+                    pass
     # everything else (proofs); -k so that independent property files still compile
     rc, out = sh(['make', '-k', '-j%d' % NCPU], cwd=COQ, timeout=3600)
     log.write('--- make all\n' + out[-8000:])
